@@ -74,8 +74,16 @@ def cfg_text(constants=None, init="Init", next_="Next", spec=None, invariants=()
     return "\n".join(lines) + "\n"
 
 
+# The OPTIMISED pass (VERIF_OPT=1, the interpreter started with -O so that `assert` statements are stripped and
+# `__debug__` is False): the library must behave the same without its assertions.  Only the legs that exercise the
+# implementation cheaply run then - trace validation of random programs (leg T) and the replay legs marked `opt=True`.
+OPT = os.environ.get("VERIF_OPT") == "1"
+
+
 def leg_m(rep, work, spec, name, cfg, expect_actions=(), workers=NPROC, timeout=1800, heap="8g"):
     """exhaustive model check; the spec (design) must satisfy its properties and not be vacuous"""
+    if OPT:
+        return None
     p = tlc.write_cfg(cfg, work.dir, f"{spec}_{name}.cfg")
     res = tlc.run(spec, p, workers=workers, coverage=True, timeout=timeout, heap=heap)
     if not res.ok:
@@ -94,6 +102,8 @@ def leg_m(rep, work, spec, name, cfg, expect_actions=(), workers=NPROC, timeout=
 
 def leg_mutant(rep, work, spec, name, cfg, expect, workers=NPROC, timeout=600):
     """a seeded design mutant must be rejected by the named property"""
+    if OPT:
+        return None
     p = tlc.write_cfg(cfg, work.dir, f"{spec}_{name}.cfg")
     res = tlc.run(spec, p, workers=workers, timeout=timeout)
     if res.ok:
@@ -108,11 +118,13 @@ def leg_mutant(rep, work, spec, name, cfg, expect, workers=NPROC, timeout=600):
 
 def leg_r(rep, work, spec, name, cfg, driver_factory, internal=(), nproc=NPROC, max_len=80,
           budget_s=None, kf_text=None, timeout=1800, obs_var="obs", edge_filter=None, require_full=True,
-          kf_classify=None, world=False):
+          kf_classify=None, world=False, opt=False):
     """dump the conformance graph and replay every edge into the real code.  world=True: the driver is built on the
     gated interpreter; in the thorough tier the replay is then repeated with the ready handles of each instant run in a
     seeded random order (VERIF_SCHEDULE=random) - outcomes must not depend on it"""
-    if world and rep.tier == "thorough" and os.environ.get("VERIF_SCHEDULE") is None and not name.endswith("_rnd"):
+    if OPT and not opt:
+        return None
+    if world and rep.tier == "thorough" and os.environ.get("VERIF_SCHEDULE") is None and not name.endswith("_rnd") and not OPT:
         first = leg_r(rep, work, spec, name, cfg, driver_factory, internal, nproc, max_len, budget_s, kf_text, timeout,
                       obs_var, edge_filter, require_full, kf_classify, world=False)
         os.environ["VERIF_SCHEDULE"] = "random"
@@ -184,6 +196,8 @@ def leg_apalache(rep, work, module, obligations, timeout=600):
     is a failure of the specification (exit 2), nothing about haiway."""
     import shutil as _sh
     import subprocess
+    if OPT:
+        return None
     if _sh.which("apalache-mc") is None:
         rep.log(f"leg A {module}: apalache-mc not available - skipped")
         return None
